@@ -457,8 +457,10 @@ def cases(draw, max_params=12, big=False):
     collect(case['func'], len(case['prepend']))
     specs = {}
     for p in allp:
-        if (not p['has_default'] or p['default'] is None) \
-                and draw(st.integers(0, 2)) == 0:
+        # a spec default stands in for a missing / None default only: specs
+        # are also given to parameters with explicit (also zero/False)
+        # defaults, which must win
+        if draw(st.integers(0, 2)) == 0:
             specs[p['name']] = draw(st.sampled_from(NUMS))
     if specs:
         case['specs'] = specs
